@@ -65,3 +65,48 @@ register(
     assumptions=ASSUME_STRUCT,
     components={"real": REAL, "stub": "none", "harness": HARNESS},
 )
+register(
+    "C04",
+    "nav",
+    quick=12000,
+    thorough=300000,
+    level="exploration",
+    title="navigation attributes and sibling/ancestor helpers equal their definitions",
+    rule=STRUCT_RULE
+    + " After every step (successful, refused or hook-aborted) all 12 navigation attributes and left/rightsibling of every "
+    "node, and commonancestors of (), one node, all ordered pairs and sampled triples/quadruples, are compared with the "
+    "harness's own walks over the observed links (probes.nav_queries, probes.util_queries).",
+    assumptions=ASSUME_STRUCT,
+    components={"real": REAL, "stub": "none", "harness": HARNESS},
+    chunk=100,
+)
+TWIN_RULE = (
+    "twin universes driven in lock-step by the same seeded history and fault plan; a case = one executed operation or one "
+    "query battery; signature = (unlabelled forest shape with op arguments marked, op kind, fired faults, outcome class) "
+    "resp. (forest shape, battery size class); distinct_nontrivial counts distinct signatures. probes.queries counts the "
+    "individual query results compared."
+)
+register(
+    "C18",
+    "twin",
+    quick=16000,
+    thorough=400000,
+    level="exploration",
+    title="LightNodeMixin behaves identically to NodeMixin",
+    rule=TWIN_RULE,
+    assumptions=ASSUME_STRUCT + ["node arguments only (non-node arguments are specified for NodeMixin alone)", "the deprecated NodeMixin-only alias `anchestors` is not compared"],
+    components={"real": REAL, "stub": "none", "harness": HARNESS},
+    chunk=100,
+)
+register(
+    "C17",
+    "twin",
+    quick=16000,
+    thorough=400000,
+    level="exploration",
+    title="tree operations use node identity only, never user-defined special methods",
+    rule=TWIN_RULE + " The second universe's class overrides a drawn subset of the 12 comparison/hash/bool/container methods in a drawn mode (count, lie, raise).",
+    assumptions=ASSUME_STRUCT + ["attribution of a special-method call to the library is by the nearest caller frame whose file lies under the anytree source root"],
+    components={"real": REAL, "stub": "none", "harness": HARNESS + "; adversarial subclasses generated per run"},
+    chunk=100,
+)
